@@ -553,23 +553,29 @@ def c05_executions(tier, seed):
         traces.append(run({'rx_routes': rx, 'tx_routes': tx}, steps))
         metas.append({'mode': mode, 'total': total, 'mtu': mtu, 'envelope': env, 'whole': whole, 'ext': ename,
                       'crc': crc, 'case': special, 'flags': flags, 'own_blocks_octets': delta})
+    # (no fragment is handed over while its CL is away or unknown: that hand-over fails and the fragment is lost,
+    # which is a matter of CL availability, not of fragmentation - only the forwarding step runs in between)
     # two routes to the same destination over different convergence layers with different MTUs (through the real
     # adaptors), and the CL daemon of the preferred route away while the bundle is accepted and back before its
     # fragments are handed over: whatever route a fragment takes, it fits that route
-    for k in range(12 if tier == 'quick' else 120):
-        (m1, m2) = rnd.choice([(120, 300), (300, 120), (150, 151), (200, 1000), (1000, 200)])
-        (c1, c2) = rnd.choice([('udpcl', 'btpu'), ('btpu', 'udpcl')])
-        total = rnd.choice([400, 1000, 2500])
-        octets = mk(src='dtn://src/app', dest='dtn://other/svc', rpt='dtn:none', flags=0, crc=rnd.choice([0, 1, 2]),
+    scripts = [['down', 'recv', 'up', 'idle'], ['recv', 'down', 'up', 'idle'], ['down', 'up', 'recv', 'idle'],
+               ['recv', 'one', 'attach', 'idle'], ['recv', 'one', 'down', 'up', 'idle'], ['attach', 'recv', 'idle']]
+    combos = list(itertools.product([(120, 300), (300, 120), (150, 151), (200, 1000), (1000, 200)],
+                                    [('udpcl', 'btpu'), ('btpu', 'udpcl')], (0, 1), scripts))
+    if tier == 'quick':
+        # the preferred route's CL turning up between the forwarding step and the hand-over of the fragments is
+        # always included, the rest is sampled
+        must = [c for c in combos if c[3] == scripts[3] and c[2] == 0]
+        combos = must + rnd.sample([c for c in combos if c not in must], 20)
+    for (k, ((m1, m2), (c1, c2), awayidx, script)) in enumerate(combos):
+        total = [400, 1000, 2500][k % 3]
+        octets = mk(src='dtn://src/app', dest='dtn://other/svc', rpt='dtn:none', flags=0, crc=k % 3,
                     pay=payload(total, k), ts=(7000 + k, 1))
-        away = rnd.choice([c1, c1, c2])
-        script = rnd.choice([['down', 'recv', 'up', 'idle'], ['recv', 'down', 'up', 'idle'], ['down', 'up', 'recv', 'idle'],
-                             ['recv', 'one', 'attach', 'idle'], ['recv', 'one', 'attach', 'idle'], ['recv', 'two', 'attach', 'idle'],
-                             ['recv', 'one', 'down', 'up', 'idle'], ['attach', 'recv', 'idle']])
+        away = (c1, c2)[awayidx]
         steps = []
         for st in script:
             steps.append({'down': ('cl_down', away), 'up': ('cl_up', away), 'recv': ('recv', octets, {'note': 'two routes'}),
-                          'idle': ('idle',), 'attach': ('cl_attach', away), 'one': ('idle_n', 1), 'two': ('idle_n', 2)}[st])
+                          'idle': ('idle',), 'attach': ('cl_attach', away), 'one': ('idle_n', 1)}[st])
         tx = [('dtn://other/', 'dtn://other/', m1, c1), ('dtn://other/', 'dtn://other/', m2, c2)]
         traces.append(run({'rx_routes': [('dtn://other/', 'forward')], 'tx_routes': tx, 'adaptors': True,
                            'defer_attach': (away,) if 'attach' in script else ()}, steps))
